@@ -531,6 +531,11 @@ func main() {
 		ordered(src(db), "r.getReplicaOwners(partID)", "newOwners = newOwners[1:]", "len(owners) == 0", "FindMemberByName(backup.Name)", "!backup.CompareByID(cur)",
 			"NewLengthOfPart(partID).SetReplica()", "count != 0", "owners = append(owners[:i], owners[i+1:]...)", "for _, newOwner := range newOwners", "owner.CompareByID(newOwner.(discovery.Member))",
 			"owners = append(owners[:i], owners[i+1:]...)", "owners = append(owners, newOwner.(discovery.Member))")
+	copies := dp != nil && db != nil &&
+		ordered(src(dp), "part := r.primary.PartitionByID(partID)", "owners := make([]discovery.Member, part.OwnerCount())", "copy(owners, part.Owners())", "GetPartitionOwner") &&
+		ordered(src(db), "part := r.backup.PartitionByID(partID)", "owners := make([]discovery.Member, part.OwnerCount())", "copy(owners, part.Owners())", "r.getReplicaOwners(partID)") &&
+		strings.Count(src(dp), "part.Owners()") == 1 && strings.Count(src(db), "part.Owners()") == 1
+	addBool("distribute_works_on_a_copy_of_the_owners", copies, "distributePrimaryCopies / distributeBackups copy the partition's owners list before pruning it in place: the list the data path reads is replaced only by the push")
 	addBool("distribute_prunes_then_appends_ring_owners", shape, "distributePrimaryCopies / distributeBackups: prune departed or re-joined members, prune owners that report zero keys, move the ring's owner(s) to the end")
 	rtGo := parse("internal/cluster/routingtable/routingtable.go")
 	opGo := parse("internal/cluster/routingtable/operations.go")
@@ -562,7 +567,12 @@ func main() {
 			"e.clusterIterator.updateIterator(keys, newCursor, owner)", "if newCursor == 0", "e.clusterIterator.removeScannedOwner(owner)") &&
 		ordered(src(ciUpd), "if _, ok := i.partitionKeys[key]; !ok", "i.page = append(i.page, key)", "i.partitionKeys[key] = struct{}{}", "i.updateCursor(owner, cursor)") &&
 		ordered(src(ciNext), "i.fetchData()", "if len(i.page) != 0", "break", "if len(i.route.PrimaryOwners) == 0 && len(i.route.ReplicaOwners) == 0", "break",
-			"if len(i.page) == 0 && len(i.route.PrimaryOwners) == 0 && len(i.route.ReplicaOwners) == 0", "i.partID++", "i.reset()")
+			"if len(i.page) == 0 && len(i.route.PrimaryOwners) == 0 && len(i.route.ReplicaOwners) == 0", "i.partID++", "i.reset()") &&
+		func() bool {
+			rs, rp := funcDecl(ciGo, "ClusterIterator", "reset"), funcDecl(ciGo, "ClusterIterator", "resetPage")
+			return rs != nil && rp != nil && ordered(src(rs), "i.partitionKeys = make(map[string]struct{})", "i.resetPage()", "i.loadRoute()") &&
+				!strings.Contains(src(rp), "partitionKeys") && strings.Count(src(ciGo), "i.partitionKeys = make(") == 1
+		}()
 	addBool("client_iterator_walks_remaining_owners_once", iterOK, "the client iterators ask the owners still on their own copy of the route, skip keys already met in the partition, and remove an owner by name when its cursor comes back 0; next() repeats until the route is empty")
 	loGo := parse("internal/cluster/routingtable/left_over_data.go")
 	plo := funcDecl(loGo, "RoutingTable", "processLeftOverDataReports")
@@ -570,6 +580,24 @@ func main() {
 		ordered(src(ur), "for attempt := 0; attempt < 2; attempt++", "r.fillRoutingTable()", "r.updateRoutingTableOnCluster()", "if !r.processLeftOverDataReports(reports)", "return") &&
 		ordered(src(plo), "var changed bool", "newOwners = append([]discovery.Member{member}, newOwners...)", "part.SetOwners(newOwners)", "changed = true", "return changed")
 	addBool("leftover_report_is_pushed_again", repush, "updateRouting computes and pushes the table once more when processLeftOverDataReports added a member to an owners list (it reports exactly that)")
+	// the periodic push runs on EVERY member (updateRouting itself returns at once on a member that is not the coordinator):
+	// whoever becomes the coordinator later keeps pruning emptied owners and repairing members that missed a push
+	rtStart := funcDecl(rtGo, "RoutingTable", "Start")
+	ppFn := funcDecl(rtGo, "RoutingTable", "pushPeriodically")
+	periodic := false
+	if rtStart != nil && ppFn != nil && ur != nil {
+		periodic = ordered(src(ppFn), "time.NewTicker(r.pushPeriod)", "case <-ticker.C:", "r.updateRouting()") &&
+			ordered(src(ur), "r.Lock()", "if !r.discovery.IsCoordinator()", "return", "r.fillRoutingTable()")
+		// `go r.pushPeriodically()` is a statement of Start's own body, not of a conditional block inside it
+		top := false
+		for _, st := range rtStart.Body.List {
+			if g, ok := st.(*ast.GoStmt); ok && strings.Contains(src(g), "r.pushPeriodically()") {
+				top = true
+			}
+		}
+		periodic = periodic && top && strings.Count(src(rtStart), "pushPeriodically") == 1
+	}
+	addBool("periodic_push_runs_on_every_member", periodic, "Start launches pushPeriodically unconditionally; the loop calls updateRouting on every tick, which returns at once unless this member is the coordinator NOW")
 	addBool("only_oldest_member_computes_and_receivers_verify_sender", coord, "updateRouting runs on the coordinator only (oldest member by birthdate), receivers reject a table whose sender is not their coordinator")
 
 	// ---- structural facts: critical sections of writes, steps of a read (C01)
